@@ -304,6 +304,28 @@ func tagTypedBeforeDiv(x *influxql.BinaryExpr) bool {
 	return ok && (v.Type == influxql.Tag || v.Type == influxql.AnyField)
 }
 
+// durBeforeDiv: `(1ms) / x`, `('x') / 2`, `(true) / 2` lose their parentheses in Reduce and are shipped as
+// `1ms / x` …; after a DURATIONVAL, a STRING or TRUE / FALSE the scanner takes the slash for the start of a
+// regex (a statement written that way is not accepted either).
+func durBeforeDiv(x *influxql.BinaryExpr) bool {
+	if x.Op != influxql.DIV {
+		return false
+	}
+	last := x.LHS
+	for {
+		if b, ok := last.(*influxql.BinaryExpr); ok {
+			last = b.RHS
+			continue
+		}
+		break
+	}
+	switch last.(type) {
+	case *influxql.DurationLiteral, *influxql.StringLiteral, *influxql.BooleanLiteral, *influxql.TimeLiteral:
+		return true
+	}
+	return false
+}
+
 func isInfNan(s string) bool { l := strings.ToLower(s); return l == "inf" || l == "nan" }
 
 func classify(e1, e2 influxql.Expr, reCtx bool) string {
@@ -358,6 +380,9 @@ func classify(e1, e2 influxql.Expr, reCtx bool) string {
 	case *influxql.BinaryExpr:
 		if tagTypedBeforeDiv(a) {
 			return "division_after_tag_typed_ref"
+		}
+		if durBeforeDiv(a) {
+			return "division_after_unwrapped_literal"
 		}
 		if b, ok := e2.(*influxql.BinaryExpr); ok && b.Op == a.Op {
 			// same node on both sides: the difference is below; a child that differs without a
@@ -435,6 +460,9 @@ func scanFeatures(e influxql.Expr) string {
 			if tagTypedBeforeDiv(x) {
 				set("division_after_tag_typed_ref")
 			}
+			if durBeforeDiv(x) {
+				set("division_after_unwrapped_literal")
+			}
 		case *influxql.VarRef:
 			// `inf::float` re-parses as the number and stops in front of the `::`
 			if isInfNan(x.Val) && x.Type != influxql.Unknown {
@@ -444,6 +472,12 @@ func scanFeatures(e influxql.Expr) string {
 			// where `duration` is the keyword DURATION, which ParseVarRef does not take
 			if x.Type == influxql.Duration {
 				set("duration_typed_ref")
+			}
+		case *influxql.DurationLiteral:
+			// the one duration ParseDuration cannot read back (`-9223372036854775808ns`: the digits overflow
+			// before the sign is applied); only an overflow in Reduce's constant folding produces it
+			if int64(x.Val) == math.MinInt64 {
+				set("duration_min_int64")
 			}
 		case *influxql.NumberLiteral:
 			// an integral float beyond the uint64 range prints as digits no integer parser accepts
